@@ -378,13 +378,125 @@ var c14rRulePool = []c14rRule{
 	{APIVersion: "apps.example.com/v1", Resource: "widgets", Selector: &c14rSel{Match: map[string]string{"app": "x"}}},
 	{APIVersion: "v1", Resource: "namespaces", Names: []string{"ns1"}},
 	{APIVersion: "v1", Resource: "namespaces", Selector: &c14rSel{Match: map[string]string{"team": "a"}}},
-	{APIVersion: "v1", Resource: "nosuch", Names: []string{"c0"}},                                                             // unknown resource
-	{APIVersion: "v9", Resource: "pods"},                                                                                      // unknown version
-	{APIVersion: "v1", Resource: "pods", Selector: &c14rSel{Match: map[string]string{"app": "x"}}, Names: []string{"c0"}},     // both: invalid
+	{APIVersion: "v1", Resource: "nosuch", Names: []string{"c0"}},                                                              // unknown resource
+	{APIVersion: "v9", Resource: "pods"},                                                                                       // unknown version
+	{APIVersion: "v1", Resource: "pods", Selector: &c14rSel{Match: map[string]string{"app": "x"}}, Names: []string{"c0"}},      // both: invalid
 	{APIVersion: "v1", Resource: "pods", Selector: &c14rSel{Exprs: []c14rReq{{Key: "app", Op: "Foo", Values: []string{"x"}}}}}, // does not convert
 }
 
 type c14rGen struct{ r *vh.Rng }
+
+// indices into c14rRulePool: rules that select by a non-empty label selector only,
+// and rules that never select anything (unknown resource/version, invalid, unconvertible)
+var c14rLabelRules = []int{0, 1, 7, 9}
+var c14rDeadRules = []int{10, 11, 12, 13}
+
+func c14rIsLabelRule(r *c14rRule) bool {
+	if r.Selector == nil || r.Namespace != "" || len(r.Names) != 0 {
+		return false
+	}
+	if _, ok := c14rKindOf(r.APIVersion, r.Resource); !ok {
+		return false
+	}
+	if len(r.Selector.Match)+len(r.Selector.Exprs) == 0 {
+		return false
+	}
+	for _, e := range r.Selector.Exprs {
+		if e.Op != "In" || len(e.Values) == 0 {
+			return false
+		}
+	}
+	return true
+}
+
+func c14rIsDeadRule(r *c14rRule) bool {
+	if _, ok := c14rKindOf(r.APIVersion, r.Resource); !ok {
+		return true
+	}
+	if r.Selector != nil && (r.Namespace != "" || len(r.Names) != 0) {
+		return true
+	}
+	if r.Selector != nil {
+		for _, e := range r.Selector.Exprs {
+			if e.Op != "In" && e.Op != "NotIn" && e.Op != "Exists" && e.Op != "DoesNotExist" {
+				return true
+			}
+		}
+	}
+	return false
+}
+
+// labelOnlyTargets: the label rules of answers that (a) belong to a cached parent at its
+// current generation and (b) hold nothing but label rules and rules that never select
+func c14rLabelOnlyTargets(spec *c14rWorldSpec) []*c14rRule {
+	var out []*c14rRule
+	for i := range spec.Answers {
+		a := &spec.Answers[i]
+		live := false
+		for _, p := range spec.Parents {
+			md, _ := p["metadata"].(map[string]interface{})
+			if md["uid"] == a.UID && md["generation"] == a.Generation {
+				live = true
+			}
+		}
+		if !live {
+			continue
+		}
+		var mine []*c14rRule
+		pure := true
+		for j := range a.Rules {
+			switch {
+			case c14rIsLabelRule(&a.Rules[j]):
+				mine = append(mine, &a.Rules[j])
+			case c14rIsDeadRule(&a.Rules[j]):
+			default:
+				pure = false
+			}
+		}
+		if pure {
+			out = append(out, mine...)
+		}
+	}
+	return out
+}
+
+// deselected: an update whose OLD state is selected by a parent's label rule and
+// whose NEW state is selected by none of that parent's rules (relabelled away,
+// labels dropped, optionally already being deleted)
+func (g *c14rGen) deselected(rule *c14rRule) *c14rEvent {
+	r := g.r
+	kind, _ := c14rKindOf(rule.APIVersion, rule.Resource)
+	labels := c14rJ{}
+	for k, v := range rule.Selector.Match {
+		labels[k] = v
+	}
+	for _, e := range rule.Selector.Exprs {
+		labels[e.Key] = e.Values[r.Intn(len(e.Values))]
+	}
+	md := c14rJ{"name": "c" + fmt.Sprint(r.Intn(3)), "uid": "uid-rel", "resourceVersion": "99", "labels": labels}
+	if kind != "Namespace" {
+		md["namespace"] = []string{"ns1", "ns2", "ns3"}[r.Intn(3)]
+	}
+	old := c14rCanon(c14rJ{"apiVersion": rule.APIVersion, "kind": kind, "metadata": md})
+	cur := c14rCopy(old)
+	cmd := cur["metadata"].(map[string]interface{})
+	cmd["resourceVersion"] = "100"
+	ev := &c14rEvent{Kind: "update"}
+	switch r.Intn(4) {
+	case 0:
+		delete(cmd, "labels")
+		ev.Role = "deselected-labels-dropped"
+	case 1:
+		cmd["labels"] = c14rJ{"app": "none", "team": "none"}
+		cmd["deletionTimestamp"] = "2020-01-02T00:00:00Z"
+		ev.Role = "deselected-relabelled-deleting"
+	default:
+		cmd["labels"] = c14rJ{"app": "none", "team": "none"}
+		ev.Role = "deselected-relabelled"
+	}
+	ev.Old, ev.Obj = old, c14rCanon(cur)
+	return ev
+}
 
 func (g *c14rGen) world() *c14rWorldSpec {
 	r := g.r
@@ -407,6 +519,19 @@ func (g *c14rGen) world() *c14rWorldSpec {
 			md["namespace"] = ns
 		}
 		spec.Parents = append(spec.Parents, c14rCanon(c14rJ{"apiVersion": "ctl.example.com/v1", "kind": kind, "metadata": md, "spec": c14rJ{}}))
+		if j == 0 && r.Chance(3, 4) {
+			// one parent whose answer selects by labels only: a relabelling can take an object out of it
+			a := c14rAnswer{UID: uid, Generation: gen, Prefilled: r.Bool()}
+			a.Rules = append(a.Rules, c14rRulePool[c14rLabelRules[r.Intn(len(c14rLabelRules))]])
+			if r.Bool() {
+				a.Rules = append(a.Rules, c14rRulePool[c14rDeadRules[r.Intn(len(c14rDeadRules))]])
+			}
+			if r.Chance(1, 3) {
+				a.Rules = append(a.Rules, c14rRulePool[c14rLabelRules[r.Intn(len(c14rLabelRules))]])
+			}
+			spec.Answers = append(spec.Answers, a)
+			continue
+		}
 		switch r.Intn(6) {
 		case 0: // the hook fails for this parent
 		case 1: // an answer for another generation only
@@ -456,8 +581,11 @@ func (g *c14rGen) related() c14rJ {
 
 func c14rCopy(m c14rJ) c14rJ { return runtime.DeepCopyJSON(m) }
 
-func (g *c14rGen) event() *c14rEvent {
+func (g *c14rGen) event(spec *c14rWorldSpec) *c14rEvent {
 	r := g.r
+	if ts := c14rLabelOnlyTargets(spec); len(ts) > 0 && r.Chance(1, 3) {
+		return g.deselected(ts[r.Intn(len(ts))])
+	}
 	obj := g.related()
 	ev := &c14rEvent{Obj: obj, Role: "related"}
 	key := ""
@@ -558,6 +686,51 @@ func TestVerif_C14r(t *testing.T) {
 		}
 		return
 	}
+	// corpus: p1 selects pods by label, p2 widgets by label, p3 pods by name
+	{
+		mk := func(name, uid string) c14rJ {
+			return c14rCanon(c14rJ{"apiVersion": "ctl.example.com/v1", "kind": "Thing",
+				"metadata": c14rJ{"name": name, "namespace": "ns1", "uid": uid, "generation": int64(1)}, "spec": c14rJ{}})
+		}
+		spec := &c14rWorldSpec{Parents: []c14rJ{mk("p1", "u1"), mk("p2", "u2"), mk("p3", "u3")},
+			Answers: []c14rAnswer{
+				{UID: "u1", Generation: 1, Rules: []c14rRule{c14rRulePool[0]}, Prefilled: true},
+				{UID: "u2", Generation: 1, Rules: []c14rRule{c14rRulePool[7], c14rRulePool[10]}},
+				{UID: "u3", Generation: 1, Rules: []c14rRule{c14rRulePool[2]}},
+			}}
+		l, err := c14rBuild(spec)
+		if err != nil {
+			t.Fatal(err)
+		}
+		obj := func(av, kind, name, rv string, labels c14rJ, deleting bool) c14rJ {
+			md := c14rJ{"name": name, "namespace": "ns1", "uid": "uid-rel", "resourceVersion": rv}
+			if labels != nil {
+				md["labels"] = labels
+			}
+			if deleting {
+				md["deletionTimestamp"] = "2020-01-02T00:00:00Z"
+			}
+			return c14rCanon(c14rJ{"apiVersion": av, "kind": kind, "metadata": md})
+		}
+		x, y := c14rJ{"app": "x"}, c14rJ{"app": "y"}
+		evs := []*c14rEvent{
+			{Kind: "update", Old: obj("v1", "Pod", "c9", "1", x, false), Obj: obj("v1", "Pod", "c9", "2", y, false), Role: "deselected-relabelled"},
+			{Kind: "update", Old: obj("v1", "Pod", "c9", "1", x, false), Obj: obj("v1", "Pod", "c9", "2", nil, false), Role: "deselected-labels-dropped"},
+			{Kind: "update", Old: obj("v1", "Pod", "c9", "1", x, false), Obj: obj("v1", "Pod", "c9", "2", y, true), Role: "deselected-relabelled-deleting"},
+			{Kind: "update", Old: obj("apps.example.com/v1", "Widget", "w", "1", x, false), Obj: obj("apps.example.com/v1", "Widget", "w", "2", y, false), Role: "deselected-relabelled"},
+			{Kind: "update", Old: obj("v1", "Pod", "c0", "1", x, false), Obj: obj("v1", "Pod", "c0", "2", y, false), Role: "deselected-relabelled"}, // p3 still selects it by name
+			{Kind: "update", Old: obj("v1", "Pod", "c9", "1", y, false), Obj: obj("v1", "Pod", "c9", "2", x, false), Role: "selected-by-relabelling"},
+			{Kind: "update", Old: obj("v1", "Pod", "c9", "1", x, false), Obj: obj("v1", "Pod", "c9", "2", x, true), Role: "status"},
+			{Kind: "update", Old: obj("v1", "Pod", "c9", "1", x, false), Obj: obj("v1", "Pod", "c9", "1", x, false), Role: "resync"},
+			{Kind: "add", Obj: obj("v1", "Pod", "c9", "1", x, true), Role: "related"},
+			{Kind: "delete", Obj: obj("v1", "Pod", "c9", "1", x, true), Role: "related"},
+			{Kind: "tombstone", Key: "ns1/c9", Obj: obj("v1", "Pod", "c9", "1", x, false), Role: "related"},
+		}
+		for i, ev := range evs {
+			emit(fmt.Sprintf("k%d", i), l, ev)
+		}
+		l.close()
+	}
 	n := env.N
 	if n == 0 {
 		n = 200
@@ -572,7 +745,7 @@ func TestVerif_C14r(t *testing.T) {
 			t.Fatalf("world %d: %v", wi, err)
 		}
 		for ei := 0; ei < perWorld && wi*perWorld+ei < n; ei++ {
-			emit(fmt.Sprintf("w%d_e%d", wi, ei), l, g.event())
+			emit(fmt.Sprintf("w%d_e%d", wi, ei), l, g.event(l.spec))
 		}
 		l.close()
 	}
